@@ -132,7 +132,7 @@ def blahut_arimoto(p_x, beta, distortion=hamming_distortion, max_iters=100, rest
             q_y_x = np.ones((n, n)) / n
         elif i == 1:
             q_y_x = np.zeros((n, n))
-            q_y_x[0, :] = 1
+            q_y_x[:, 0] = 1
         else:
             q_y_x = sample_simplex(n, n)
 
